@@ -1,0 +1,9 @@
+//go:build verif
+
+package sqroot
+
+// VerifBufferSize exposes the unexported bufferSize print option so that
+// verification builds (build tag verif) can exercise small write buffers.
+func VerifBufferSize(size int) Option {
+	return bufferSize(size)
+}
